@@ -23,3 +23,9 @@ pub assume_specification<T>[ Option::<T>::replace ](this: &mut Option<T>, value:
 
 pub assume_specification<T: Copy>[ Option::<&T>::copied ](this: Option<&T>) -> (r: Option<T>)
     ensures this is None ==> r is None, this is Some ==> r == Some(*this->Some_0);
+
+pub assume_specification<T, F: FnOnce(T) -> bool>[ Option::<T>::is_some_and ](this: Option<T>, f: F) -> (r: bool)
+    requires this is Some ==> f.requires((this->Some_0,)),
+    ensures
+        this is None ==> !r,
+        this is Some ==> f.ensures((this->Some_0,), r);
